@@ -148,10 +148,13 @@ func attackPairs() [][2]*sbom.Node {
 			{Id: "i", ExternalReferences: []*sbom.ExternalReference{{Url: "u", Hashes: map[int32]string{1: "d41d8c1", 2: "af1349"}}}}},
 		// text that a formatting function would read as a directive
 		{{Id: "i", Name: "release%2Fv1"}, {Id: "i", Name: "release%3Fv1"}},
-		{{Id: "i", UrlHome: "https://e.org/a%20b"}, {Id: "i", UrlHome: "https://e.org/a%2520b"}},
+		{{Id: "i", UrlHome: "e.org/a%20b"}, {Id: "i", UrlHome: "e.org/a%2520b"}},
 		{{Id: "i", Comment: "100%+free"}, {Id: "i", Comment: "100%-free"}},
-		{{Id: "i", ExternalReferences: []*sbom.ExternalReference{{Url: "https://e.org/protobom%20sbom.json", Comment: "50%d"}}},
-			{Id: "i", ExternalReferences: []*sbom.ExternalReference{{Url: "https://e.org/protobom%2520sbom.json", Comment: "50%d"}}}},
+		// (no separator character of the flattened encoding in these values: they are not the known separator collisions)
+		{{Id: "i", ExternalReferences: []*sbom.ExternalReference{{Url: "e.org/protobom%20sbom.json", Comment: "50%d"}}},
+			{Id: "i", ExternalReferences: []*sbom.ExternalReference{{Url: "e.org/protobom%2520sbom.json", Comment: "50%d"}}}},
+		{{Id: "i", ExternalReferences: []*sbom.ExternalReference{{Url: "u", Comment: "release%2Fv1", Authority: "a%5d"}}},
+			{Id: "i", ExternalReferences: []*sbom.ExternalReference{{Url: "u", Comment: "release%3Fv1", Authority: "a%7d"}}}},
 		{{Id: "i", Suppliers: []*sbom.Person{{Name: "n%s"}}}, {Id: "i", Suppliers: []*sbom.Person{{Name: "n%v"}}}},
 		// a map entry whose value is the empty string is an entry
 		{{Id: "i", Hashes: map[int32]string{1: "a", 2: ""}}, {Id: "i", Hashes: map[int32]string{1: "a"}}},
